@@ -318,6 +318,37 @@ def named_program(name):
         a, b = g.inputs()
         dm = g.add_op(DivMod, a, b)
         g.set_outputs(dm[0])
+    elif name == "cfg_no_entry":      # totality boundary (C12_export_total_iff): a CFG without a basic block
+        g = m.define_main([tys.Bool])
+        (b,) = g.inputs()
+        cfg = g.hugr.add_node(ops.CFG([tys.Bool], [tys.Bool]), g.parent_node, num_outs=1)
+        g.hugr.add_node(ops.ExitBlock([tys.Bool]), cfg)
+        g.hugr.add_link(b.out_port(), cfg.inp(0))
+        g.set_outputs(cfg.out(0))
+    elif name == "half_order":        # clause-6 guard boundary (order_ports_b): order port linked to a value port
+        g = m.define_main([tys.Bool])
+        (b,) = g.inputs()
+        n1 = g.add_op(Not, b)
+        n2 = g.hugr.add_node(Not, g.parent_node, num_outs=1)
+        g.hugr.add_link(n1.out(-1), n2.inp(0))
+        g.set_outputs(n1, n2.out(0))
+    elif name == "order_fan":         # order edges fanning in and out, to Output and from Input, in a nested DFG
+        g = m.define_main([tys.Bool])
+        (b,) = g.inputs()
+        with g.add_nested(b) as d:
+            (x,) = d.inputs()
+            a1 = d.add_op(Not, x)
+            a2 = d.add_op(Not, x)
+            a3 = d.add_op(Not, x)
+            d.add_state_order(a1, d.output_node)
+            d.add_state_order(a1, a3)
+            d.add_state_order(a2, a3)
+            d.add_state_order(d.input_node, a2)
+            d.add_state_order(a3, d.output_node)
+            d.set_outputs(a1, a2, a3)
+        n = g.add_op(Not, b)
+        g.add_state_order(d, n)
+        g.set_outputs(d[0], n)
     elif name == "dfg_root":          # not a module: export of the root as a module region raises
         d = Dfg(tys.Bool)
         d.set_outputs(*d.inputs())
@@ -328,7 +359,10 @@ def named_program(name):
 
 
 NAMED = ["call_twice", "load_twice", "order_hint", "cfg_entry", "cfg_loop", "fn_value", "poly_call", "alias",
-         "unused_outputs"]
+         "unused_outputs", "order_fan"]
+# programs outside the guard of the theorems (not claimed valid): model and implementation must still agree
+BOUNDARY = ["dfg_root", "cfg_no_entry", "half_order"]
+GUARDS = ("g_valid", "g_order", "g_ports", "g_stars", "g_cfg", "g_hints", "g_total", "g_all", "g_noerr")
 
 
 # ----------------------------------------------------------------------------- python.rs / hugr.model -> coq/gen/ModelAttrs.v
@@ -456,8 +490,9 @@ class C12(fw.Prop):
                "classes); type, value and signature terms are compared as opaque payloads (repr of the term "
                "the public to_model() methods return)",
                "hugr.model string/bytes printing (native module) is outside the model"]
-    assumptions = ["validity guard of the theorems (ExportS.valid_b, valid_order_b) evaluated per case; a generated "
-                   "module that does not meet it is reported as a correspondence failure"]
+    assumptions = ["validity guard of the theorems (ExportS.valid_b, valid_order_b, order_ports_b, stars_b, "
+                   "cfg_entries_b) evaluated per case; a generated module that does not meet it is reported as a "
+                   "correspondence failure; coverage.input_distribution.guards counts, per guard, the cases that meet it"]
 
     def regenerate(self, ctx):
         reads, built = scan_python_rs(os.path.join(fw.REPO, "hugr-model", "src", "v0", "ast", "python.rs"))
@@ -468,8 +503,8 @@ class C12(fw.Prop):
 
     # -- cases
     def corpus(self, ctx):
-        return [{"prog": n} for n in NAMED] + [{"prog": "dfg_root", "valid": False},
-                                               {"prog": "call_twice", "package": True}]
+        return [{"prog": n} for n in NAMED] + [{"prog": n, "valid": False} for n in BOUNDARY] + [
+            {"prog": "call_twice", "package": True}]
 
     def generate(self, rng, tier, ctx):
         n = 260 if tier == "quick" else 3000
@@ -501,6 +536,7 @@ class C12(fw.Prop):
             return named_program("call_twice"), "call_twice(fallback)"
 
     def observe(self, case, ctx):
+        self._ctx = ctx
         I = fw.Interner()
         try:
             h, p = self.build(case)
@@ -630,7 +666,32 @@ class C12(fw.Prop):
                     d["stmt_kinds"][k] = d["stmt_kinds"].get(k, 0) + v
         ns = sorted(d["nodes"])
         d["nodes"] = {"min": ns[0], "median": ns[len(ns) // 2], "max": ns[-1]} if ns else {}
+        d["guards"] = self.guard_counts(cases, observations)
         return d
+
+    def guard_counts(self, cases, observations):
+        """How many of this run's HUGRs meet the guard of which theorem: the guards of spec/ExportS.v evaluated in
+        Coq on every case (g_hints = guard of C12_order_hints_complete_and_keyed, g_total = guard of
+        C12_export_total, g_all = the monitor's guard, g_noerr = the model's export does not raise)."""
+        ctx = getattr(self, "_ctx", None)
+        if ctx is None or not cases:
+            return {}
+        try:
+            lits = [self.literal(c, o, ctx) for c, o in zip(cases, observations)]
+            res = fw.eval_cases(ctx.work, self.run_module, lits, shard=4 * self.shard, checks=GUARDS, tag="guards")
+        except Exception as e:                                   # reported, never silently dropped
+            return {"error": type(e).__name__ + ": " + str(e)[-300:]}
+        claimed = {i for i, c in enumerate(cases) if c.get("valid", True)}
+        out = {"cases": len(cases), "claimed_valid": len(claimed)}
+        for g in GUARDS:
+            bad = set(res[g])
+            out[g[2:]] = {"all": len(cases) - len(bad), "of_claimed_valid": len(claimed - bad)}
+        with_cfg = [i for i, o in enumerate(observations) if "view" in o and self.stats(o)["kinds"].get("KCFG", 0)]
+        out["cases_with_cfg"] = len(with_cfg)
+        out["cases_with_sibling_order_edge"] = sum(1 for o in observations if "view" in o and self.stats(o)["sib_order"] > 0)
+        ctx.stats["guard_total_met"] = "%d/%d" % (out["total"]["of_claimed_valid"], len(claimed))
+        ctx.stats["guard_hints_met"] = "%d/%d" % (out["hints"]["of_claimed_valid"], len(claimed))
+        return out
 
 
 PROP = C12()
